@@ -122,6 +122,7 @@ type c16Case struct {
 	IllFormed    string         `json:"ill_formed,omitempty"`
 	Peek         bool           `json:"peek,omitempty"`       // requests are served between the loads
 	DupScalar    string         `json:"dup_scalar,omitempty"` // this scalar is declared twice in the set
+	CaseTwins    bool           `json:"case_twins,omitempty"` // the set has names that differ only in case
 }
 
 func checkC16(c *c16Case) (ds []hx.Discrepancy, info map[string]bool) {
@@ -229,6 +230,9 @@ func TestC16(t *testing.T) {
 		if c.DupScalar != "" {
 			cl = append(cl, "scalar-declared-twice")
 		}
+		if c.CaseTwins {
+			cl = append(cl, "names-differing-only-in-case")
+		}
 		if c.IllFormed != "" {
 			cl = append(cl, "ill-formed-set", "ill-formed="+c.IllFormed)
 			if info["all-rejected"] {
@@ -284,6 +288,23 @@ func TestC16(t *testing.T) {
 					break
 				}
 			}
+		}
+		if rapid.IntRange(0, 3).Draw(rt, "caseTwins") == 0 {
+			// definitions whose names differ in nothing but case (their place in the sorted tables must
+			// not depend on which arrived first)
+			kind := rapid.SampledFrom([]string{hx.KEnum, hx.KScalar, hx.KInput}).Draw(rt, "caseTwinKind")
+			for _, n := range []string{"ZqTwin", "ZQTWIN", "zqtwin"} {
+				td := &hx.TypeDef{Kind: kind, Name: n}
+				switch kind {
+				case hx.KEnum:
+					td.Values = []*hx.EnumValue{{Name: "A"}}
+				case hx.KInput:
+					td.Inputs = []*hx.Arg{{Name: "a", Type: hx.Named("Int")}}
+				}
+				s.Types = append(s.Types, td)
+			}
+			s.Dirs = append(s.Dirs, &hx.DirDef{Name: "zqTwin", On: []string{"ENUM"}}, &hx.DirDef{Name: "ZQtwin", On: []string{"ENUM"}})
+			c.CaseTwins = true
 		}
 		plain := &Arrangement{Docs: [][]Piece{{{Text: s.SDL(o)}}}}
 		c.Arrangements = append(c.Arrangements, plain,
